@@ -31,6 +31,10 @@ def main(argv):
                 except Exception:
                     pass            # a refused load has been judged inside load()
                 s.evaluations += 1
+            elif data.get('witness', {}).get('type') == 'hostile-caller':
+                # witness of K.hostile_callers: the workload is small and deterministic - all of it is judged again
+                from .props import common as K_
+                K_.hostile_callers(s)
             elif data.get('witness', {}).get('type') == 'in-place':
                 # witness of the in-place monitor (harness.Session.add): the same message into the same content again
                 w_ = data['witness']
